@@ -190,6 +190,58 @@ def run(ctx):
                                      "instances is %s" % (j + 1, t, seq[:j], k, n, "kept" if 'some' in a else "dropped"),
                              "thresholds": seq, "nt": nt, "warm": a[-300:], "fresh": f[-300:]})
                 break
+    # ---------------- directed: shapes that a high threshold empties (and removes) must be back at a lower one - on fresh Shapers and on
+    # one Shaper asked high first, then low (the instantiation namespace is ignored, so a class shape can lose every constraint)
+    stats["emptied_shape_sequences"] = 0
+    for i in range(20 if ctx.tier == "quick" else 200):
+        g = []
+        ncls = rng.randint(2, 3)
+        for c in range(ncls):
+            ninst = rng.randint(2, 4)
+            for j in range(ninst):
+                node = I('e%d_%d' % (c, j))
+                g.append((node, RDF_TYPE, I('E%d' % c)))
+                g.append((node, EX + 'only%d_%d' % (c, j % max(1, ninst - 1)), L('v')))       # no feature shared by all instances of class 0
+                if c > 0:
+                    g.append((node, EX + 'shared%d' % c, L('w')))
+        rng.shuffle(g)
+        cfg = gen.default_cfg()
+        cfg['ignore_ns'] = [RDF]
+        kw = impl.shaper_kwargs(cfg)
+        nt = to_nt(g)
+        seq = rng.choice([[0.5, 1.0, 0.0, 0.75], [1.0, 0.0], [1.0, 0.5, 1.0, 0.25], [0.75, 1.0, 0.5]])
+        warm = Shaper(raw_graph=nt, input_format=C.NT, **kw)
+        stats["emptied_shape_sequences"] += 1
+        for j, t in enumerate(seq):
+            try:
+                a = warm.shex_graph(string_output=True, acceptance_threshold=t)
+                f = Shaper(raw_graph=nt, input_format=C.NT, **kw).shex_graph(string_output=True, acceptance_threshold=t)
+            except Exception as e:
+                viol.append({"what": "call raised %s: %s" % (type(e).__name__, str(e)[:100]), "thresholds": seq, "nt": nt})
+                break
+            if a != f:
+                viol.append({"what": "call %d of one Shaper (threshold %r, after %r) differs from a fresh Shaper at that threshold: a shape emptied by "
+                                     "an earlier, higher threshold is missing or changed" % (j + 1, t, seq[:j]),
+                             "thresholds": seq, "nt": nt, "warm": a[-400:], "fresh": f[-400:]})
+                break
+    # ---------------- directed: an output of more than 5000 lines at the low threshold (the string result is assembled from 5000-line
+    # pieces) and a short one at threshold 1: every shape of the high threshold is there at the low one
+    big = []
+    for k in range(450 if ctx.tier == "quick" else 1200):
+        for j in range(2):
+            big += [(I('b%d_%d' % (k, j)), RDF_TYPE, I('B%d' % k)), (I('b%d_%d' % (k, j)), EX + 'all', L('v')),
+                    (I('b%d_%d' % (k, j)), EX + 'mine%d' % j, L('w')), (I('b%d_%d' % (k, j)), EX + 'other%d' % j, I('b%d_%d' % ((k + 1) % 450, j)))]
+    rs = pipeline.run_impl([(big, dict(gen.default_cfg(), th=(0, 1))), (big, dict(gen.default_cfg(), th=(1, 1)))])
+    stats["large_output_lines"] = [r[2].count("\n") if r[0] == 'ok' else None for r in rs]
+    if rs[0][0] != 'ok' or rs[1][0] != 'ok':
+        viol.append({"what": "implementation gave no result on the large document", "outcomes": [list(r[:2]) for r in rs]})
+    else:
+        lo = {sh['label']: set(base.shape_keys(sh, gen.default_cfg())) for sh in rs[0][1]['shapes']}
+        hi = {sh['label']: set(base.shape_keys(sh, gen.default_cfg())) for sh in rs[1][1]['shapes']}
+        missing = [l for l in hi if l not in lo]
+        if missing or any(not hi[l] <= lo[l] for l in hi if l in lo):
+            viol.append({"what": "large document (%s lines at threshold 0): %d shapes of threshold 1 are absent at threshold 0" % (stats["large_output_lines"][0], len(missing)),
+                         "first_missing": missing[:5], "shapes_at_0": len(lo), "shapes_at_1": len(hi)})
     return base.std_result(ctx, cases, viol, dis, base.known_lines(kf, reproduced), stats, nontriv, samples,
                            "per random graph and configuration: fresh Shapers on every threshold of the k/n grid of the class sizes present "
                            "(all ordered pairs compared); classes of 250 (2500) instances with a feature missing from one or two, under every decimals setting, at "
